@@ -170,30 +170,37 @@ pub fn run(l: &[i128]) -> Vec<i128> {
             for (i, p) in src.pixels_mut().iter_mut().enumerate() {
                 *p = tiny_skia::PremultipliedColorU8::from_rgba((i * 8) as u8, 255 - (i * 7) as u8, (i * 3) as u8, 255).unwrap();
             }
-            let mk = || -> Paint {
+            // `extra`: the draw transform folded into the shader's own transform by hand (own . post_concat(extra)), which is
+            // what "the shader follows the geometry" means; Shader::transform itself is not used for the reference
+            let mk = |extra: Transform| -> Paint {
                 let mut paint = Paint::default();
                 paint.anti_alias = aa;
-                match shader_kind {
+                match shader_kind % 4 {
                     0 => paint.set_color_rgba8(20, 150, 100, 255),
                     1 => {
                         paint.shader = LinearGradient::new(Point::from_xy(0.0, 0.0), Point::from_xy(12.0, 5.0),
                             vec![GradientStop::new(0.0, Color::from_rgba8(255, 0, 0, 255)), GradientStop::new(1.0, Color::from_rgba8(0, 0, 255, 255))],
-                            SpreadMode::Reflect, Transform::identity()).unwrap()
+                            SpreadMode::Reflect, Transform::identity().post_concat(extra)).unwrap()
                     }
-                    _ => paint.shader = Pattern::new(src.as_ref(), SpreadMode::Repeat, FilterQuality::Nearest, 1.0, Transform::from_translate(1.0, 2.0)),
+                    2 => paint.shader = Pattern::new(src.as_ref(), SpreadMode::Repeat, FilterQuality::Nearest, 1.0, Transform::from_translate(1.0, 2.0).post_concat(extra)),
+                    _ => {
+                        // an elliptical radial gradient: its own transform does not commute with the draw transform
+                        paint.shader = tiny_skia::RadialGradient::new(Point::from_xy(6.0, 5.0), Point::from_xy(6.0, 5.0), 9.0,
+                            vec![GradientStop::new(0.0, Color::from_rgba8(255, 255, 0, 255)), GradientStop::new(1.0, Color::from_rgba8(0, 0, 255, 255))],
+                            SpreadMode::Repeat, Transform::from_row(1.0, 0.0, 0.25, 0.5, 2.0, 1.0).post_concat(extra)).unwrap()
+                    }
                 }
                 paint
             };
-            let cap = [LineCap::Butt, LineCap::Round, LineCap::Square][(l[9] as usize / 3) % 3];
+            let cap = [LineCap::Butt, LineCap::Round, LineCap::Square][(l[9] as usize / 4) % 3];
             let mut a = Pixmap::new(64, 64).unwrap();
             let mut bb = Pixmap::new(64, 64).unwrap();
-            a.stroke_path(&path, &mk(), &Stroke { width, line_cap: cap, ..Stroke::default() }, t, None);
+            a.stroke_path(&path, &mk(Transform::identity()), &Stroke { width, line_cap: cap, ..Stroke::default() }, t, None);
             let p2 = match path.clone().transform(t) {
                 Some(p) => p,
                 None => return vec![-2],
             };
-            let mut paint2 = mk();
-            paint2.shader.transform(t);
+            let paint2 = mk(t);
             bb.stroke_path(&p2, &paint2, &Stroke { width: width * scale, line_cap: cap, ..Stroke::default() }, Transform::identity(), None);
             // hairlines (width 0, or anti-aliased and at most one device pixel wide) walk the same device segments in both
             // draws; wider strokes are outlined in different spaces (before / after the mirror or turn), so join and cap
